@@ -53,6 +53,9 @@ LISTS_B = [[1, 2, 3, 6], [1, 2, 4, 8], [1, 3, 6, 12]]
 # the outer search also labels its fields with list 0's descriptors, so list 0 must have at least (number of lists + 1) entries
 # (Domains.tla: BiRectFirstListLongEnough) - otherwise fieldDescriptors[x_r_idx] is an IndexError
 LISTS_C = [[1, 2, 3, 4], [1, 2, 3, 4, 6], [1, 2, 4, 6, 9, 12]]
+# very large fields: the total drilling of the first list exceeds the 99 999 m with which BisectionZD.search_successive starts its
+# "previous drilling" (the loop then ends on its first pass)
+LISTS_H = [[1, 450, 900], [1, 500, 1000]]
 # a spacing window that admits no whole number of rows: empty candidate domain (F23)
 EMPTY_1D = [[]]
 EMPTY_NESTED = ([], [[]])
@@ -100,6 +103,7 @@ def model_runs(mode: str, t: str):
         cfgs += [{"lists": L, "cap": 0, "cont": ct, "flow": "BOREHOLE"} for L in EMPTY_NESTED for ct in (False, True)]
         runs.append(("ZD-A-4val", cfgs, [-2, -1, 1, 2], 15, {}))
         cfgs = [{"lists": LISTS_B, "cap": c, "cont": ct, "flow": "SYSTEM"} for c in (0, 7) for ct in (False, True)]
+        cfgs += [{"lists": LISTS_H, "cap": 0, "cont": ct, "flow": "BOREHOLE"} for ct in (False, True)]
         runs.append(("ZD-B-2val", cfgs, [-1, 1], 15, {}))
         cfgs = [{"lists": LISTS_Z, "cap": c, "cont": ct, "flow": "BOREHOLE"} for c in (0, 8) for ct in (False, True)]
         runs.append(("ZD-sawtooth-4val", cfgs, [-3, -2, -1, 1], 15, {}))
@@ -244,6 +248,7 @@ def gen_runs(t: str):
     cfgs += [{"lists": L, "cap": 0, "cont": ct, "flow": "SYSTEM"} for L in EMPTY_NESTED for ct in (False, True)]
     runs.append(("ZD", "gZD-A", cfgs, [-2, -1, 1, 2] if t == "thorough" else [-2, -1, 1], 15, {}))
     cfgs = [{"lists": LISTS_B, "cap": 0, "cont": ct, "flow": "BOREHOLE"} for ct in (False, True)]
+    cfgs += [{"lists": LISTS_H, "cap": 0, "cont": ct, "flow": "BOREHOLE"} for ct in (False, True)]
     runs.append(("ZD", "gZD-B", cfgs, [-1, 1], 15, {}))
     cfgs = [{"lists": LISTS_Z, "cap": c, "cont": ct, "flow": "BOREHOLE"} for c in (0, 8) for ct in (False, True)]
     runs.append(("ZD", "gZD-sawtooth", cfgs, [-3, -2, -1, 1], 15, {}))   # three distinct negative values: untied triples
